@@ -34,7 +34,7 @@ import time
 import traceback
 from contextlib import contextmanager
 
-from harness.core import PropSpec, Result, Violation, Ctx, run_model, REPO
+from harness.core import PropSpec, Result, Violation, Ctx, run_model, REPO, CORPUS
 
 logging.disable(logging.CRITICAL)      # bobocep logs every scripted send failure
 
@@ -171,23 +171,29 @@ class RecordingRLock:
         return False
 
 
+_CUR = {'rec': None, 'installed': False}
+
+
+def _factory():
+    return RecordingRLock(_CUR['rec'], sys._getframe(1))
+
+
 @contextmanager
 def patched_rlock(rec):
-    """replace the name `RLock` in every loaded bobocep module (they all do `from threading import RLock`)."""
+    """
+    Replace the name `RLock` in every loaded bobocep module (they all do `from threading import RLock`)
+    for the rest of this process; locks created from now on (also later, e.g. every BoboRun) report to `rec`.
+    """
     import bobocep  # noqa
     import bobocep.setup  # noqa
     import bobocep.dist.tcp  # noqa
     import bobocep.cep.action.handler  # noqa
-    saved = []
+    import bobocep.cep.gen.event  # noqa
     for name, mod in list(sys.modules.items()):
         if name.startswith('bobocep') and mod is not None and getattr(mod, 'RLock', None) is ORIG_RLOCK:
-            saved.append(mod)
-            mod.RLock = rec.factory
-    try:
-        yield
-    finally:
-        for mod in saved:
-            mod.RLock = ORIG_RLOCK
+            mod.RLock = _factory
+    _CUR['rec'] = rec
+    yield
 
 
 # --------------------------------------------------------------------------
@@ -218,7 +224,7 @@ class FakeSocket:
 class System:
     """a real engine + distributed instance (sockets and OS threads replaced, nothing else)."""
 
-    def __init__(self, rec, handler_kind='blocking', loop_pattern=False, singleton=False):
+    def __init__(self, rec, handler_kind='blocking', loop_pattern=False, singleton=False, genevent=False):
         from bobocep.cep.action import BoboAction, BoboActionHandlerBlocking
         from bobocep.cep.action.handler import BoboActionHandlerMultithreading
         from bobocep.cep.phenom import BoboPhenomenon
@@ -250,9 +256,13 @@ class System:
             self.handler = BoboActionHandlerMultithreading(threads=2) if handler_kind == 'threads' \
                 else BoboActionHandlerBlocking()
             devices = [BoboDevice('127.0.0.1', 9101, 'urn_a', 'key_a'), BoboDevice('127.0.0.1', 9102, 'urn_b', 'key_b')]
+            gen_event = None
+            if genevent:
+                from bobocep.cep.gen.event import BoboGenEventTime
+                gen_event = BoboGenEventTime(millis=10 ** 13, datagen=lambda: 0)     # polled under the receiver lock
             self.engine, self.dist = BoboSetupSimpleDistributed(
                 phenomena=[self.phenom], handler=self.handler, urn='urn_a', devices=devices,
-                aes_key='0123456789abcdef').generate()
+                aes_key='0123456789abcdef', gen_event=gen_event).generate()
         d = self.dist
         d._thread_incoming = FakeThread()
         d._thread_outgoing = FakeThread()
@@ -294,6 +304,14 @@ class System:
             d._closed = False
             d._running = True
 
+    def own_payload(self):
+        """the last locally produced change, through the real serialiser (names an existing local run)."""
+        d = self.dist
+        item = None
+        while not d._queue_outgoing.empty():
+            item = d._queue_outgoing.get_nowait()
+        return d._outgoing_to_json(item)
+
     def outgoing_pass(self):
         """one pass of the real `_tcp_outgoing` loop (ended at its second visit of `_lock_in_out`)."""
         d = self.dist
@@ -313,6 +331,57 @@ class System:
         try:
             d._tcp_outgoing()
         finally:
+            if old is None:
+                self.rec.hooks.pop(me, None)
+            else:
+                self.rec.hooks[me] = old
+            d._thread_closed = False
+
+    def incoming_loop(self, payload):
+        """the real `_tcp_incoming` accept loop over a scripted socket module: one client, then one accept
+        timeout; ended at its third visit of `_lock_in_out`."""
+        import socket as real_socket
+        import bobocep.dist.tcp as tcp
+        d = self.dist
+        data = d._crypto.encrypt("{} {} {} {} {}".format('urn_b', 'key_b', 0, 0, payload))
+        script = [FakeSocket(data, 1 << 16)]
+
+        class Listener:
+            def bind(self, a): pass
+            def listen(self, n): pass
+            def settimeout(self, t): pass
+            def close(self): pass
+
+            def accept(self):
+                if script:
+                    return script.pop(0), ('127.0.0.9', 40000)
+                raise real_socket.timeout()
+
+        class FakeSocketModule:
+            AF_INET, SOCK_STREAM, timeout = real_socket.AF_INET, real_socket.SOCK_STREAM, real_socket.timeout
+
+            @staticmethod
+            def socket(*a):
+                return Listener()
+        d._thread_closed = False
+        me = threading.get_ident()
+        seen = {'n': 0}
+        old = self.rec.hooks.get(me)
+
+        def hook(lock, held):
+            if lock.name().endswith('._lock_in_out') and not held:
+                seen['n'] += 1
+                if seen['n'] >= 3:
+                    d._thread_closed = True
+            if old is not None:
+                old(lock, held)
+        self.rec.hooks[me] = hook
+        saved = tcp.socket
+        tcp.socket = FakeSocketModule
+        try:
+            d._tcp_incoming()
+        finally:
+            tcp.socket = saved
             if old is None:
                 self.rec.hooks.pop(me, None)
             else:
@@ -379,12 +448,15 @@ def _ops():
         'feeder_add':       ('feeder', lambda s: None, lambda s, p: (s.feed(7), s.engine.receiver.size())),
         'dist_main_updated':   ('dist_main', lambda s: None, lambda s, p: s.run_main_pass(p['updated'])),
         'dist_main_completed': ('dist_main', lambda s: None, lambda s, p: s.run_main_pass(p['completed'])),
+        'dist_main_existing':  ('dist_main', lambda s: (s.feed(1), s.engine.update(), setattr(s, 'own', s.own_payload())),
+                                lambda s, p: s.run_main_pass(s.own)),
         'outgoing_resync':  ('dist_outgoing', lambda s: setattr(s, 'now', 10 ** 6), lambda s, p: s.outgoing_pass()),
         'outgoing_sync':    ('dist_outgoing', lambda s: (s.feed(1), s.engine.update()), lambda s, p: s.outgoing_pass()),
         'outgoing_sync_fail': ('dist_outgoing', lambda s: (s.feed(1), s.engine.update(), setattr(s, 'send_code', 2)),
                                lambda s, p: s.outgoing_pass()),
         'outgoing_ping':    ('dist_outgoing', lambda s: setattr(s, 'now', 1000 + 40), lambda s, p: s.outgoing_pass()),
         'incoming_sync':    ('dist_incoming', lambda s: None, lambda s, p: s.incoming_client(0, 1, p['updated'])),
+        'incoming_loop':    ('dist_incoming', lambda s: None, lambda s, p: s.incoming_loop(p['updated'])),
         'incoming_ping':    ('dist_incoming', lambda s: None, lambda s, p: s.incoming_client(1, 0, '{}')),
         'controller_observe': ('controller', lambda s: (s.feed(1), s.engine.update()), lambda s, p: (
             s.dist.size_incoming(), s.dist.size_outgoing(), s.dist.is_closed(), s.engine.decider.all_runs(),
@@ -402,7 +474,7 @@ OPS = _ops()
 
 def fresh(rec, variant):
     s = System(rec, handler_kind=variant.get('handler', 'blocking'), loop_pattern=variant.get('loop', False),
-               singleton=variant.get('singleton', False))
+               singleton=variant.get('singleton', False), genevent=variant.get('genevent', False))
     s.dist._running = True
     return s
 
@@ -656,6 +728,7 @@ VARIANTS = [
     {'handler': 'threads'},
     {'handler': 'blocking', 'loop': True},
     {'handler': 'blocking', 'singleton': True},
+    {'handler': 'threads', 'genevent': True},
 ]
 
 
@@ -682,7 +755,7 @@ def run(ctx: Ctx) -> Result:
     g, err = static_table()
     if g is None:
         res.notes.append('static extraction refused: ' + err)
-    variants = VARIANTS if ctx.thorough else VARIANTS[:2] + [ctx.rng.choice(VARIANTS[2:])]
+    variants = VARIANTS
     events, errors, payloads = collect(ctx, res, variants)
     for e in errors:
         res.disagreements.append({'harness-operation-failed': e})
@@ -792,8 +865,7 @@ def run(ctx: Ctx) -> Result:
             res.disagreements.append({'lock-order-cycle-not-confirmed-by-forcing': list(cyc), 'forcing': r['result']})
 
     # ---- regression corpus: the F6 schedule must complete
-    f6 = [{'op': 'engine_start', 'holds': 'BoboDecider._lock', 'wants': 'BoboDistributedTCP._lock_local'},
-          {'op': 'dist_main_updated', 'holds': 'BoboDistributedTCP._lock_local', 'wants': 'BoboDecider._lock'}]
+    f6 = json.loads((CORPUS / 'C08' / 'f6-schedule.json').read_text())['steps']
     if not any(v.sig == sig_of(['BoboDecider._lock', 'BoboDistributedTCP._lock_local']) for v in res.violations):
         r = force(Recorder, payloads, VARIANTS[0], f6)
         res.add_case({'corpus': 'F6-schedule'})
@@ -831,16 +903,19 @@ def stress(ctx, res, payloads, seconds=3.0):
     errs = []
     progress = {'engine': 0, 'feeder': 0, 'dist': 0, 'out': 0}
 
+    other = {'n': 0}
+
     def guard(fn, key):
         def w():
             try:
                 while not stop.is_set():
-                    fn()
-                    progress[key] += 1
+                    try:
+                        fn()
+                        progress[key] += 1
+                    except Exception:  # noqa  (e.g. "distributed is closed" while the stub ends a run() pass)
+                        other['n'] += 1
             except LockTimeout as e:
                 errs.append(f"{key}: {e}")
-            except Exception as e:  # noqa
-                errs.append(f"{key}: {e.__class__.__name__}: {e}")
         return w
     seq = itertools.cycle([1, 2, 3, 1, 9, 1, 2, 3])
 
@@ -865,7 +940,8 @@ def stress(ctx, res, payloads, seconds=3.0):
     if stuck or any('LockTimeout' in e or 'not acquired' in e for e in errs):
         res.violations.append(Violation('lock-order-deadlock:stress', f"threads stuck in concurrent run: {stuck} {errs[:3]}",
                                         {'stress': True, 'errors': errs[:5]}))
-    res.notes.append(f"concurrent run {seconds}s: progress {progress}, errors {errs[:2]}")
+    res.notes.append(f"concurrent run {seconds}s on real threads: iterations {progress}, lock timeouts {errs[:2]}, "
+                     f"other exceptions tolerated {other['n']}")
 
 
 def search(ctx: Ctx) -> Result:
@@ -902,10 +978,10 @@ SPEC = PropSpec(
     search=search,
     rule='every operation of the table OPS (engine update that starts / completes / halts a run with an action, the real '
          'engine.run loop, engine.close, feeder add_data, the real distributed run() loop dispatching an updated / completed '
-         'remote change, one pass of the real outgoing loop in RESYNC / SYNC / failed SYNC / PING mode, the incoming client '
-         'handler with SYNC+RESET and PING, controller observers, close/join) is driven on a fresh real engine + '
-         'BoboDistributedTCP for 3 (quick) or 4 (thorough) system variants (blocking / thread-pool handler, loop pattern, '
-         'singleton pattern) in a seeded order; every new lock acquisition is recorded with the set of lock classes held; '
+         'remote change, one pass of the real outgoing loop in RESYNC / SYNC / failed SYNC / PING mode, the real incoming accept loop over a scripted '
+         'socket module, the incoming client handler with SYNC+RESET and PING, controller observers, close/join) is driven on a fresh real engine + '
+         'BoboDistributedTCP for 5 system variants (blocking / thread-pool handler, loop pattern, '
+         'singleton pattern, timed event generator) in a seeded order; every new lock acquisition is recorded with the set of lock classes held; '
          'distinct = distinct (variant, operation); every cycle of order constraints is forced on real threads in every '
          'rotation; the F6 schedule is forced on every run; thorough adds a 3 s concurrent run of all roles',
     trusted_base=[
